@@ -31,12 +31,14 @@ REGISTRY = {
                 explanation="Provenance rules on the abstract paths of as_new_flow and on the MIR of the helpers: last "
                             "Location selection (R14.1), resolution base read through the override-aware URI accessor "
                             "(R14.2), resolver result installed as override (R14.3), accessor table and its consumers "
-                            "request line / Host (R14.4), failure arms return Err (R14.5). RFC 3986 resolution itself is "
-                            "inside the url crate and not decided."),
+                            "request line / Host (R14.4), failure arms return Err (R14.5), the request handed to the next flow is the stored "
+                            "request itself and the typestate conversions keep the amended request (R14.6). RFC 3986 "
+                            "resolution itself is inside the url crate and not decided."),
     "C15": dict(modules=["rules_redirect"], rules_attr="C15_RULES", min_instances=4, exhaustive=True, trusted_base=TB,
                 explanation="E4 decision tables: method rewriting over (status cell x method) from as_new_flow (R15.1), "
-                            "redirect detection over all status codes from the advance function (R15.2), origin of the "
-                            "reported status (R15.3); compared with tables written from the property statement."),
+                            "redirect detection over all status codes from the advance function (R15.2), the stored status is the "
+                            "status of the response that is returned (R15.3) and following a redirect leaves it in place "
+                            "(R15.4); compared with tables written from the property statement."),
     "C17": dict(modules=["rules_c17"], min_instances=6, exhaustive=True, trusted_base=TB,
                 explanation="E4 abstract interpretation of the first write of every public entry (Call::without_body / "
                             "Call::with_body + write; Flow::new [+ send_body_despite_method] + proceed + write), header "
@@ -106,8 +108,9 @@ REGISTRY = {
     "C16": dict(modules=["rules_c16"], min_instances=6, trusted_base=TB,
                 explanation="Iterator-adaptor dataflow: the term built by the effective header iterator is walked from the "
                             "caller-added list outwards; only total adaptors may occur on that path (R16.1, with a positive "
-                            "fixture); set_header pushes exactly when both conversions succeed (R16.2); order (R16.3 = R02.6); "
-                            "capacity constant (R16.4)."),
+                            "fixture); set_header pushes exactly when both conversions succeed and push appends exactly the pushed "
+                            "value on every path (R16.2); order (R16.3 = R02.6); capacity constant (R16.4); redirected requests "
+                            "carry the caller's request (R14.6, shared)."),
     "C18": dict(modules=["rules_c18"], min_instances=12, trusted_base=TB,
                 explanation="Narrow structural part: E4 table of the public wrapper over the writer mode (R18.1) and compile-time "
                             "constant coherence (R18.2). The for-all-n fit, <= n and monotonicity are NOT decided (arithmetic over "
